@@ -75,6 +75,7 @@ const (
 	ExtraUnsolicited ExtraKind = iota // a well-formed reply nobody asked for (own nonce)
 	ExtraGarbage                      // complete frame that is not a DNS message
 	ExtraHalfFrame                    // prefix announces 100 octets, 10 are sent; the connection is poisoned afterwards
+	ExtraSpoof                        // UDP only: a well-formed reply to the query in hand (its id, its question) that comes from another socket - another port of the server's address, or SpoofIP - and not from the server's
 )
 
 type IDMode int
@@ -88,10 +89,11 @@ const (
 
 // Extra is an additional frame sent before or after the reply to a query.
 type Extra struct {
-	Kind   ExtraKind
-	IDMode IDMode
-	ID     uint16
-	Delay  time.Duration
+	Kind    ExtraKind
+	IDMode  IDMode
+	ID      uint16
+	Delay   time.Duration
+	SpoofIP string // ExtraSpoof: source address of the forged datagram ("" = the server's address, another port)
 }
 
 // Action scripts what the server does with one query. The zero value is
@@ -507,6 +509,10 @@ func (sc *SConn) flush(list []heldReply) {
 
 func (sc *SConn) emit(q *Query, act Action) {
 	for _, e := range act.Before {
+		if e.Kind == ExtraSpoof {
+			sc.sendSpoof(q, e)
+			continue
+		}
 		sc.extra(e)
 	}
 	aborted := false
@@ -663,6 +669,47 @@ func (sc *SConn) extra(e Extra) {
 	case ExtraHalfFrame:
 		sc.SendHalfFrame()
 	}
+}
+
+// sendSpoof sends a forged reply to q from a socket that is not the server's (logged as a reply
+// of kind SPOOFED:..., Query -1: the server never sent it).
+func (sc *SConn) sendSpoof(q *Query, e Extra) {
+	if sc.pc == nil {
+		return
+	}
+	if e.Delay > 0 {
+		time.Sleep(e.Delay)
+	}
+	kind := "SPOOFED:other-port"
+	ip := sc.pc.LocalAddr().(*net.UDPAddr).IP
+	port := 0
+	if e.SpoofIP != "" {
+		kind = "SPOOFED:other-address"
+		ip = net.ParseIP(e.SpoofIP)
+		port = sc.pc.LocalAddr().(*net.UDPAddr).Port // same port number on the other address, if it is free
+	}
+	u, err := net.ListenUDP("udp4", &net.UDPAddr{IP: ip, Port: port})
+	if err != nil && port != 0 {
+		u, err = net.ListenUDP("udp4", &net.UDPAddr{IP: ip})
+	}
+	if err != nil {
+		return
+	}
+	defer u.Close()
+	nonce := NextNonce()
+	msg := BuildReply(q.ID, q.Question, nonce, sc.s.Leg, false)
+	r := &Reply{Conn: sc.ID, ID: q.ID, Nonce: nonce, Query: -1, Kind: kind, Leg: sc.s.Leg, Len: len(msg)}
+	s := sc.s
+	s.mu.Lock()
+	r.T = Now()
+	r.Seq = len(s.replies)
+	s.replies = append(s.replies, r) // logged before it leaves, like every reply
+	s.mu.Unlock()
+	n, _ := u.WriteTo(msg, sc.raddr)
+	s.mu.Lock()
+	r.TEnd = Now()
+	r.Written = n
+	s.mu.Unlock()
 }
 
 // SendUnsolicited writes a well-formed reply nobody asked for.
